@@ -969,7 +969,7 @@ class EventGenerator:
                         if j < len(values):
                             rolling = True
                             value = values[j]
-                            if value is not None or var.nillable:
+                            if value is not None or var.nillable or var.is_elements:
                                 yield var, value
                     elif j == 0:
                         rolling = True
